@@ -5,5 +5,6 @@ CONSTANTS ND = 8
  MaxAcc = 4
  Modes = {"R", "W", "RW"}
  WithFlush = TRUE
+ DupData = TRUE
 INVARIANTS AcceptExit
 CHECK_DEADLOCK FALSE
